@@ -156,7 +156,7 @@ func (s *Staking) Plan(c *Ctx) []hist.TxSpec {
 	case 3:
 		// the same delegator unstakes twice in one block: both amounts mature at the same height
 		if len(vals) > 1 {
-			out = append(out, s.unstake(c, vals[1], 300, "first of two unstakes in one block"), s.unstake(c, vals[1], 200, "second of two unstakes in one block"))
+			out = append(out, s.unstake(c, vals[1], 300, "first of two unstakes in one block"), s.unstake(c, vals[1], 200, "second of two unstakes in one block"), s.unstake(c, vals[1], 200, "third unstake in the block, of the same amount as the second"))
 		}
 		return out
 	}
